@@ -152,8 +152,27 @@ pub fn payload(uid: u32, idx: u32, len: usize) -> Vec<u8> {
         out.extend_from_slice(&x.to_le_bytes());
     }
     out.truncate(len);
+    if uid & ENTRY_LIKE != 0 {
+        // "entry-like" payload: every 64 bytes (from `phase`) a well-formed AppendRecords entry header for a queue
+        // that does not exist ("zz"), whose single item claims all bytes up to the end of the payload. Any reader
+        // that ever takes payload bytes starting at such an offset for an entry delivers a record nobody appended.
+        let phase = ((uid >> 24) & 63) as usize;
+        let mut o = phase;
+        while o + 27 <= len {
+            out[o] = 4;
+            out[o + 1..o + 9].copy_from_slice(&(7_000_000u64 + o as u64).to_le_bytes());
+            out[o + 9..o + 11].copy_from_slice(&2u16.to_le_bytes());
+            out[o + 11..o + 13].copy_from_slice(b"zz");
+            out[o + 13..o + 21].copy_from_slice(&(7_000_000u64 + o as u64).to_le_bytes());
+            out[o + 21..o + 25].copy_from_slice(&((len - o - 25) as u32).to_le_bytes());
+            o += 64;
+        }
+    }
     out
 }
+
+/// uid flag: entry-like payload (see `payload`); bits 24..29 carry the phase of the 64-byte grid.
+pub const ENTRY_LIKE: u32 = 1 << 31;
 
 #[derive(Clone, Copy, Debug, PartialEq, Eq, PartialOrd, Ord, Hash, Serialize, Deserialize)]
 pub struct Rec {
